@@ -253,6 +253,60 @@ def session_case(args):
         shutil.rmtree(tmp, ignore_errors=True)
 
 
+def parse_model_correspondence(ctx, rng, flagsets):
+    dictIO = native.dictio()
+    tmp = native.scratch_dir("c17m_")
+    try:
+        make_sources(rng, tmp, 2)
+        originals = snapshot(tmp)
+        mlines, ilines, kept = [], [], []
+        for f in flagsets:
+            for src in ("src0", "src1"):
+                # restore the directory (a previous call may have written parsed.* files)
+                for pth in list(tmp.iterdir()):
+                    if pth.is_file():
+                        pth.unlink()
+                for name, bts in originals.items():
+                    (tmp / name).write_bytes(bts)
+                k = expected_kwargs(f)
+                fsparts = [f"{wire.enc_str(str(tmp / name))} native {wire.enc_str(bts.decode())}" for name, bts in sorted(originals.items())]
+                scope = k["scope"] or []
+                mlines.append(f"parse_model l{len(fsparts)} " + " ".join(fsparts) + f" {wire.enc_str(str(tmp / src))} {wire.enc_bool(k['includes'])} "
+                              f"{wire.enc_bool(k['mode'] == 'a')} {wire.enc_bool(k['order'])} {wire.enc_bool(k['comments'])} "
+                              f"{wire.enc_list(scope, wire.enc_scalar)} {wire.enc_opt(f['out'], wire.enc_str)} i-1")
+                native.set_counter(-1)
+                before = snapshot(tmp)
+                try:
+                    dictIO.DictParser.parse(tmp / src, includes=k["includes"], mode=k["mode"], order=k["order"], comments=k["comments"],
+                                            scope=k["scope"], output=k["output"])
+                    after = snapshot(tmp)
+                    changed = [n for n in after if before.get(n) != after[n]]
+                    if len(changed) != 1:
+                        ilines.append(f"changed {changed}")
+                    else:
+                        ilines.append(f"ok {wire.enc_str(str(tmp / changed[0]))} {wire.enc_str(after[changed[0]].decode())} i{native.counter_value()}")
+                except SystemExit:
+                    ilines.append("raise 10")
+                except (ValueError, TypeError, IndexError, KeyError, RecursionError) as e:
+                    ilines.append(f"raise {native.ERRCODE[type(e).__name__]}")
+                except Exception as e:  # noqa: BLE001
+                    ilines.append("raise-other " + type(e).__name__)
+                kept.append({"kind": "wiring", "flags": f, "src": src})
+        mout = wire.run_model_sharded(mlines)
+        inside = 0
+        for c, ml, il in zip(kept, mout, ilines):
+            if ml == "outside":
+                continue
+            inside += 1
+            ctx.corr_compared += 1
+            if wire.canon_floats(ml) != wire.canon_floats(il) and len(ctx.disagreements) < 20:
+                ctx.disagree("parse_model (DictParser.parse: read options, target name, write)", c, ml[:2500], il[:2500])
+        ctx.classes["parse_model:compared"] += inside
+        ctx.classes["parse_model:outside the model"] += len(kept) - inside
+    finally:
+        shutil.rmtree(tmp, ignore_errors=True)
+
+
 def failure_case(kind: str):
     tmp = native.scratch_dir("c17f_")
     try:
@@ -383,6 +437,9 @@ def run(ctx):
         if r:
             ctx.oracle_fail(c, r[0], r[1])
         ctx.count(("s", repr(flist), src, seed), True, "session")
+    # 2c. the whole workflow in the model: DictParser.parse (read with all options, target name, write incl. append
+    #     onto the pre-existing parsed.<name>) for native and Foam output, model vs implementation: name and bytes
+    parse_model_correspondence(ctx, rng, [f for f in matrix if f["out"] not in ("json", "xml") and not f["log"] and f["verb"] is None])
     # 3. failure cases
     for what in ("missing", "bad-o", "bad-mode", "unknown-scope", "unknown-scope-list"):
         c = {"kind": "failure", "what": what}
